@@ -167,6 +167,15 @@ pub fn check(prop: &str, tier: &str) -> i32 {
                 "push_slice: the last short word equals the big-endian number of the remaining bytes (unused high-order bytes zero), as the shipped unit test pins".into(),
             ];
             rep.run_engine(&AdtSim { focus: prop.into() }, scale(tier, 400_000, 20_000_000), &findings);
+            if prop == "C13" {
+                // frame accounting by real code: whole transactions with out-of-gas points (F2),
+                // database faults (F1) and inspector short-circuits (F3); the monitor checks at
+                // every instruction that remaining <= limit, that remaining never grows inside a
+                // frame, and at every frame end that no more gas comes back than was given
+                rep.real_components.extend(strs(REAL_E1));
+                rep.stub_components.extend(strs(STUB_E1));
+                rep.run_engine(&TxSim { focus: "C13".into() }, scale(tier, 100_000, 3_000_000), &findings);
+            }
         }
         "C21" => {
             rep.rule = "collision matrix drawn per run: target pre-state {absent, code, nonce, storage only, balance only, nonce+storage} x layer stack {Raw, CacheDB, State, State+bundle, WrapDatabaseRef, WrapDatabaseRef<CacheDB>, CacheDB<CacheDB>, State<CacheDB>, Box<State<Box>>, CacheDB<EmptyDB>, State<EmptyDB> (world inserted into the layer itself)} (+ storage inserted into the CacheDB) x {CREATE, CREATE2, create transaction, EOFCREATE, EOF create transaction (the two EOF kinds under OSAKA)} x spec x {target touched by an earlier transaction or not} x value; a cell is distinct by (spec, layer, target state, kind, warm-up, value, lazy code)".into();
